@@ -22,6 +22,7 @@ func init() {
 			{"C13-R2", "no write to an unlinked shard set", c13r2},
 			{"C13-R3", "cache cleared with every mutation", c13r3},
 			{"C13-R4", "a delete that may leave a shard set empty reaches the unlink decision", c13r4},
+			{"C13-R5", "foreign-cluster shards are merged only after the cluster-local and node-local tests", c13r5},
 		},
 	})
 }
@@ -358,5 +359,71 @@ func c13r4(c *Ctx) {
 	}
 	c.Check("after locking, a non-preserving delete always reaches the emptiness decision", pos, !found,
 		"deleteServiceInner can return, with preserveKeys false, without deciding whether the shard set became empty: after `endpoints -> none (keys preserved) -> service deleted / registry removed`, the empty entry and its ServiceAccounts stay in the EndpointIndex, keep feeding secure-naming SANs, and a re-created service is treated as known (incremental instead of full push)")
+	c.Floor(3)
+}
+
+// C13-R5: shards of other clusters. snapshotShards merges the per-cluster shards of a service for one proxy; a shard of a
+// cluster other than the proxy's is taken only after BOTH confinement attributes were looked at: the service being
+// cluster-local, and the service being node-local (node names are unique only within a cluster, so the per-endpoint node
+// test further down cannot stand in for the shard-level skip). Every path from the "foreign cluster" edge to the append
+// passes a branch on EndpointBuilder.clusterLocal and a branch on ServiceAttributes.NodeLocal.
+func c13r5(c *Ctx) {
+	p := c.P
+	fn := p.Func("pilot/pkg/xds/endpoints", "EndpointBuilder", "snapshotShards")
+	var foreign []Edge
+	for _, i := range allIfs(fn) {
+		v, neg := stripNot(i.Cond)
+		b, ok := v.(*ssa.BinOp)
+		if !ok || (b.Op != token.EQL && b.Op != token.NEQ) {
+			continue
+		}
+		fx, fy := fieldOfLoad(b.X), fieldOfLoad(b.Y)
+		if fx == nil || fy == nil {
+			continue
+		}
+		names := map[string]bool{fx.Name(): true, fy.Name(): true}
+		if !names["Cluster"] || !names["clusterID"] {
+			continue
+		}
+		idx := 0
+		if (b.Op == token.EQL) != neg {
+			idx = 1
+		}
+		foreign = append(foreign, Edge{i.Block(), idx})
+	}
+	c.Check("snapshotShards: the foreign-cluster test found", fn.Pos(), len(foreign) == 1, "expected one comparison of the shard's cluster with the proxy's cluster")
+	isAppend := func(ins ssa.Instruction) bool {
+		call, ok := ins.(*ssa.Call)
+		if !ok {
+			return false
+		}
+		bi, ok := call.Call.Value.(*ssa.Builtin)
+		return ok && bi.Name() == "append"
+	}
+	branchOn := func(field string) func(ssa.Instruction) bool {
+		return func(ins ssa.Instruction) bool {
+			i, ok := ins.(*ssa.If)
+			if !ok {
+				return false
+			}
+			v, _ := stripNot(i.Cond)
+			f := fieldOfLoad(v)
+			return f != nil && f.Name() == field
+		}
+	}
+	// every way to the append that does not cross the "same cluster" edge passes both tests
+	var same []Edge
+	for _, e := range foreign {
+		same = append(same, Edge{e.From, 1 - e.Idx})
+	}
+	for _, field := range []string{"clusterLocal", "NodeLocal"} {
+		bad, found := pathAvoidingE(fn.Blocks[0], nil, deepMust(branchOn(field), 1), isAppend, same, nil)
+		pos := fn.Pos()
+		if bad != nil {
+			pos = bad.Pos()
+		}
+		c.Check("snapshotShards: a foreign cluster's shard is merged only after the "+field+" test", pos, len(foreign) == 1 && !found,
+			"a shard of another cluster can be merged into the proxy's endpoints without a branch on "+field+": for a cluster-local service endpoints of other clusters leak in; for a node-local service the proxy on node N of its cluster is given the endpoints on the equally named node of every other cluster (node names are only unique per cluster, the later per-endpoint node test cannot tell them apart)")
+	}
 	c.Floor(3)
 }
